@@ -91,9 +91,21 @@ Definition expected_effective (lang_l cap_l node_l : option layout) : layout :=
   | None => spec_default_read
   end.
 
-(* observation: the layout found on the character after reading; compared on the geometric components,
-   values within 1e-9 (they are re-parsed two-decimal numbers) *)
-Definition size_close (a b : size) : bool := unit_eqb (s_unit a) (s_unit b) && q_close9 (s_val a) (s_val b).
+(* the same without the rounding: the exact layout whose two-decimal print the document carries *)
+Definition spec_fill_defaults (l : layout) : layout :=
+  mkLayout (l_origin l) (l_extent l) (l_padding l)
+           (Some (mkAlign (Some (match l_alignment l with Some a => match al_h a with Some h => h | None => HStart end | None => HStart end))
+                          (Some (match l_alignment l with Some a => match al_v a with Some v => v | None => VBottom end | None => VBottom end))))
+           None.
+Definition expected_effective_exact (lang_l cap_l node_l : option layout) : layout :=
+  match spec_effective lang_l cap_l node_l with
+  | Some l => if layout_truthy l then (if has_region l then spec_fill_defaults l else spec_default_read) else spec_default_read
+  | None => spec_default_read
+  end.
+
+(* observation: the layout found on the character after reading; compared on the geometric components; its values
+   are re-parsed two-decimal prints of binary64 results, so each must be within 1/200 (+1e-9) of the exact value *)
+Definition size_close (a b : size) : bool := unit_eqb (s_unit a) (s_unit b) && q_close_tol (s_val a) (s_val b).
 Definition layout_close (a b : layout) : bool :=
   opt_eqb (fun p q => size_close (p_x p) (p_x q) && size_close (p_y p) (p_y q)) (l_origin a) (l_origin b)
   && opt_eqb (fun p q => size_close (st_h p) (st_h q) && size_close (st_v p) (st_v q)) (l_extent a) (l_extent b)
@@ -104,7 +116,7 @@ Definition layout_close (a b : layout) : bool :=
 
 Definition ok_effective (lang_l cap_l node_l : option layout) (obs : option layout) : bool :=
   match obs with
-  | Some o => layout_close o (expected_effective lang_l cap_l node_l)
+  | Some o => layout_close o (expected_effective_exact lang_l cap_l node_l)
   | None => false
   end.
 
